@@ -526,7 +526,7 @@ func main() {
 	pending := order
 	timeouts := map[string]int{}
 	inflight := map[string]int{}
-	skipped, nTimeout, nDied, nPanic, nRetried := 0, 0, 0, 0, 0
+	skipped, nTimeout, nDied, nPanic, nRetried, nOverflow := 0, 0, 0, 0, 0, 0
 	// pick the next runnable scenario. Scenarios of a sig that already reached -hangcap timeouts are
 	// dropped; predicted-hanging scenarios of a sig wait while -hangcap of them are in flight (so that
 	// an unrepaired tree costs hangcap watchdog periods per sig, not one per worker).
@@ -585,7 +585,9 @@ func main() {
 				// A scenario that does not complete within the watchdog period is run a second time in a fresh
 				// child with a three times longer period: only a scenario that fails to complete twice is a
 				// Timeout (a machine-wide stall must not look like a non-terminating cycle).
+				overflows, dropped := 0, false
 				for attempt := 1; attempt <= 2; attempt++ {
+					overflowRetry := false
 					period := *timeout
 					if attempt == 2 {
 						period = 3 * *timeout
@@ -623,13 +625,20 @@ func main() {
 								if len(msg) > 300 {
 									msg = msg[:300]
 								}
-								if strings.Contains(msg, "channel full") && attempt == 1 {
+								if strings.Contains(msg, "channel full") {
 									// the buffered watch channel of the fake API server overflowed (apimachinery
 									// watch.FakeWatcher panics instead of blocking): an artefact of the fake, not of the
-									// scheduler - the scenario is run once more in a fresh child
+									// scheduler - the scenario is run again in a fresh child (up to four more times, the
+									// overflow depends on how fast the informer goroutines drain the channel on a loaded
+									// machine); a scenario that still overflows gives no verdict and is left out
 									w.kill()
 									w = nil
-									timedOut = true
+									overflows++
+									if overflows <= 4 {
+										overflowRetry = true
+									} else {
+										dropped = true
+									}
 									done = true
 									break
 								}
@@ -661,7 +670,15 @@ func main() {
 						}
 					}
 					timer.Stop()
-					if !timedOut {
+					if overflowRetry {
+						mu.Lock()
+						nRetried++
+						mu.Unlock()
+						time.Sleep(time.Duration(overflows) * 200 * time.Millisecond)
+						attempt--
+						continue
+					}
+					if dropped || !timedOut {
 						break
 					}
 					if attempt == 1 {
@@ -676,6 +693,13 @@ func main() {
 					timeouts[s.Sig]++
 					nTimeout++
 					mu.Unlock()
+				}
+				if dropped {
+					mu.Lock()
+					nOverflow++
+					inflight[s.Sig]--
+					mu.Unlock()
+					continue
 				}
 				if len(evs) == 0 || !strings.Contains(evs[0], `"ev":"Scenario"`) {
 					// the child died before echoing the scenario: write the scenario line ourselves
@@ -714,6 +738,6 @@ func main() {
 		fmt.Fprintln(os.Stderr, err)
 		os.Exit(2)
 	}
-	fmt.Printf("scenarios=%d ran=%d skipped_after_hangcap=%d timeouts=%d (first-attempt timeouts retried=%d) recovered_panics=%d process_deaths=%d events=%d\n",
-		len(scens), ran, skipped, nTimeout, nRetried, nPanic, nDied, tw.Count())
+	fmt.Printf("scenarios=%d ran=%d skipped_after_hangcap=%d timeouts=%d (first-attempt timeouts retried=%d) recovered_panics=%d process_deaths=%d events=%d fake_overflow_dropped=%d\n",
+		len(scens), ran, skipped, nTimeout, nRetried, nPanic, nDied, tw.Count(), nOverflow)
 }
